@@ -163,7 +163,8 @@ def check(mod, tier: str, seed: int, *, replay: str | None = None) -> int:
             print(json.dumps({"record": rec, "failing": verdict["fails"]}, indent=1)[:20000])
             return 1 if violations else 0
         # ---------------------------------------------------------------- coverage obligations
-        missing = verdict.get("missing", [])
+        missing = list(verdict.get("missing", []))
+        missing += [r for r in getattr(mod, "REQUIRED", []) if r not in verdict.get("seen", [])]
         # ---------------------------------------------------------------- evidence
         keys = {}
         nontrivial = 0
